@@ -25,7 +25,7 @@ func c18Alphabet() []c18Tok {
 	return []c18Tok{
 		{"a", "a", false}, {"é", "é", false}, {"ÿ", "ÿ", false},
 		// Ã followed by © is C3 A9 in Latin-1: bytes that also read as well-formed UTF-8 (for é)
-		{"Ã", "Ã", false}, {"©", "©", false}, {"LF", "\n", false}, {"CRLF", "\r\n", false}, {"CR", "\r", false}, {"SP", " ", false},
+		{"Ã", "Ã", false}, {"©", "©", false}, {"LF", "\n", false}, {"CRLF", "\r\n", false}, {"CR", "\r", false}, {"SP", " ", false}, {"%", "%", false},
 		{"a*996", a(996), false}, {"a*997", a(997), false}, {"a*998", a(998), false}, {"a*999", a(999), false},
 		{"a*997+é", a(997) + "é", false}, {"é*499", strings.Repeat("é", 499), false}, {"a*998+SP", a(998) + " ", false}, {"a*997+SP", a(997) + " ", false},
 		{"a*65534", a(65534), true}, {"a*65536", a(65536), true}, {"a*70000", a(70000), true},
@@ -319,7 +319,7 @@ func C18(args []string) {
 		"states":                        int64(len(seqs)) + swept.Load(),
 		"transitions":                   r.Evals.Load(),
 		"traces_validated_against_impl": r.Evals.Load(),
-		"rule":                          "every token sequence up to the length bound over the 20-token line/wrap/charset alphabet (at most max_big 64KiB-class tokens per text) through the real SetBody / SetBodyWithCharset; non-trivial = more than one token",
+		"rule":                          "every token sequence up to the length bound over the 21-token line/wrap/charset alphabet (at most max_big 64KiB-class tokens per text) through the real SetBody / SetBodyWithCharset; non-trivial = more than one token",
 		"alphabet":                      len(alpha), "max_tokens": maxTok, "max_big_tokens": maxBig,
 	}, []string{"boundary sweep: one é at every byte offset p with p mod 512 in {509,510,511,0,1} (thorough: every offset) of a 140 KiB text of 64- and 63-byte CRLF lines", "texts are compositions of the alphabet tokens only; characters are Latin-1 representable (a, é, ÿ, space, CR, LF)"})
 }
